@@ -108,10 +108,17 @@ theorem PStruct.take_rowAt (s : PStruct α) (idx : List (Option Nat)) (i : Nat) 
         simp [PStruct.len] at hjl; omega
       simp [this, hjl]
 
+/-- the row an optional position points to: missing for a masked or out-of-range position -/
+def pickRow (rows : List (Row α)) (o : Option Nat) : Row α :=
+  match o with
+  | none => none
+  | some j => (rows[j]?).join
+
 theorem PStruct.take_rows (s : PStruct α) (idx : List (Option Nat)) :
-    (s.take idx).rows = idx.map fun o => match o with
+    (s.take idx).rows = idx.map (pickRow s.rows) := by
+  show (s.take idx).rows = idx.map fun o => match o with
       | none => none
-      | some j => (s.rows[j]?).join := by
+      | some j => (s.rows[j]?).join
   apply List.ext_getElem?
   intro i
   rw [PStruct.rows_getElem?, PStruct.take_len]
